@@ -282,3 +282,44 @@ func CollideNames(r *Rng, body []Node) ([]Node, bool) {
 	}
 	return renAll(body), true
 }
+
+// RenameCapture renames the capture `from` (its declaration and every back-reference to it) to `to`.
+func RenameCapture(body []Node, from, to string) []Node {
+	var ren func(n Node) Node
+	renAll := func(ns []Node) []Node {
+		out := make([]Node, len(ns))
+		for i, n := range ns {
+			out[i] = ren(n)
+		}
+		return out
+	}
+	ren = func(n Node) Node {
+		switch x := n.(type) {
+		case Capture:
+			x.Body = ren(x.Body)
+			if x.Name == from {
+				x.Name = to
+			}
+			return x
+		case BackRef:
+			if x.Name == from {
+				x.Name = to
+			}
+			return x
+		case Loop:
+			x.Body = ren(x.Body)
+			return x
+		case Seq:
+			x.Items = renAll(x.Items)
+			return x
+		case Or:
+			x.Alts = renAll(x.Alts)
+			return x
+		case SubDef:
+			x.Body = renAll(x.Body)
+			return x
+		}
+		return n
+	}
+	return renAll(body)
+}
